@@ -340,53 +340,90 @@ def struct_literals(node, name):
       text="every AsmInstruction literal built outside asm() declares the encoded length of its mnemonic/operand (branch 2, JMP/JSR 3, zero-page cctmp 2), or copies nb_bytes from the instruction it clones")
 def t_handbuilt(facts, res, tier):
     n = 0
+    constructors = {}   # fn name -> {field: param index}
+
+    def check(fn, lit, fields):
+        mn_e = fields.get("mnemonic")
+        nb_e = fields.get("nb_bytes")
+        op_e = fields.get("dasm_operand")
+        if mn_e is None or nb_e is None:
+            res.fail("T-HANDBUILT:%s:INCOMPLETE" % fn["name"], facts.where(fn, lit), "AsmInstruction literal without mnemonic/nb_bytes")
+            return
+        mtxt = expr_text(mn_e)
+        mn = mtxt.split("::")[-1]
+        if mn not in MN:
+            # copy of another instruction: nb_bytes must be copied from the same source
+            src = mtxt.rsplit(".", 1)[0] if "." in mtxt else None
+            key = "T-HANDBUILT:%s:copy" % fn["name"]
+            res.inst(key, True, {"mnemonic": mtxt, "nb_bytes": expr_text(nb_e)})
+            if src is None or expr_text(nb_e) != src + ".nb_bytes":
+                res.fail(key, facts.where(fn, lit), "instruction built from `%s` does not copy its nb_bytes (`%s`)" % (mtxt, expr_text(nb_e)))
+            return
+        optxt = expr_text(op_e) if op_e is not None else ""
+        if MN[mn]["kind"] == "branch":
+            want = 2
+            shape = "label"
+        elif mn in ("JMP", "JSR"):
+            want = 3
+            shape = "label"
+        elif op_e is not None and op_e.get("k") in ("mcall", "lit") and '"cctmp"' in optxt:
+            mode = expected_mode(mn, "sym:cctmp", True)
+            want = ISA["mode_bytes"][mode] if mode else None
+            shape = "cctmp"
+        elif op_e is not None and (optxt in ('""', '"".into()', "String::new()")):
+            mode = expected_mode(mn, "none", False)
+            want = ISA["mode_bytes"][mode] if mode else None
+            shape = "none"
+        else:
+            want = None
+            shape = "?"
+        key = "T-HANDBUILT:%s:%s:%s" % (fn["name"], mn, shape)
+        res.inst(key, True, {"mnemonic": mn, "operand": optxt, "nb_bytes": expr_text(nb_e), "expected": want})
+        if want is None:
+            res.fail(key, facts.where(fn, lit), "cannot classify the operand `%s` of hand-built %s to check its length" % (optxt, mn))
+        elif not (nb_e.get("k") == "lit" and nb_e["v"] == want):
+            res.fail(key, facts.where(fn, lit), "hand-built `%s %s` declares nb_bytes = %s, encoded length is %d" % (mn, optxt, expr_text(nb_e), want))
+
     for fn in facts.fns:
         if fn["name"] == "asm" and GEN_QUAL in fn["qual"]:
             continue
+        pnames = [p["name"].replace("mut ", "").strip() for p in fn["params"]]
         for lit in struct_literals(fn["body"], "AsmInstruction"):
             n += 1
             fields = {f["name"]: f["e"] for f in lit["fields"]}
             mn_e = fields.get("mnemonic")
-            nb_e = fields.get("nb_bytes")
-            op_e = fields.get("dasm_operand")
-            if mn_e is None or nb_e is None:
-                res.fail("T-HANDBUILT:%s:INCOMPLETE" % fn["name"], facts.where(fn, lit), "AsmInstruction literal without mnemonic/nb_bytes")
+            if mn_e is not None and mn_e.get("k") == "path" and len(mn_e["segs"]) == 1 and mn_e["segs"][0] in pnames:
+                # a constructor: the literal's fields are the function's parameters; checked at its call sites
+                fmap = {}
+                for fname2, e in fields.items():
+                    base = e
+                    while base.get("k") in ("mcall", "ref", "unary") and (base.get("k") != "mcall" or base["method"] in ("into", "to_string", "clone", "to_owned")):
+                        base = base["recv"] if base.get("k") == "mcall" else base["e"]
+                    if base.get("k") == "path" and len(base["segs"]) == 1 and base["segs"][0] in pnames:
+                        fmap[fname2] = ("param", pnames.index(base["segs"][0]))
+                    else:
+                        fmap[fname2] = ("expr", e)
+                constructors[fn["name"]] = (fn, fmap)
+                res.inst("T-HANDBUILT:%s:constructor" % fn["name"], True, {"fields_from_parameters": sorted(k for k, v in fmap.items() if v[0] == "param")})
                 continue
-            mtxt = expr_text(mn_e)
-            mn = mtxt.split("::")[-1]
-            if mn not in MN:
-                # copy of another instruction: nb_bytes must be copied from the same source
-                src = mtxt.rsplit(".", 1)[0] if "." in mtxt else None
-                key = "T-HANDBUILT:%s:copy" % fn["name"]
-                res.inst(key, True, {"mnemonic": mtxt, "nb_bytes": expr_text(nb_e)})
-                if src is None or expr_text(nb_e) != src + ".nb_bytes":
-                    res.fail(key, facts.where(fn, lit), "instruction built from `%s` does not copy its nb_bytes (`%s`)" % (mtxt, expr_text(nb_e)))
-                continue
-            optxt = expr_text(op_e) if op_e is not None else ""
-            if MN[mn]["kind"] == "branch":
-                want = 2
-                shape = "label"
-            elif mn in ("JMP", "JSR"):
-                want = 3
-                shape = "label"
-            elif op_e is not None and op_e.get("k") in ("mcall", "lit") and '"cctmp"' in optxt:
-                mode = expected_mode(mn, "sym:cctmp", True)
-                want = ISA["mode_bytes"][mode] if mode else None
-                shape = "cctmp"
-            elif op_e is not None and (optxt in ('""', '"".into()', "String::new()")):
-                mode = expected_mode(mn, "none", False)
-                want = ISA["mode_bytes"][mode] if mode else None
-                shape = "none"
-            else:
-                want = None
-                shape = "?"
-            key = "T-HANDBUILT:%s:%s:%s" % (fn["name"], mn, shape)
-            res.inst(key, True, {"mnemonic": mn, "operand": optxt, "nb_bytes": expr_text(nb_e), "expected": want})
-            if want is None:
-                res.fail(key, facts.where(fn, lit), "cannot classify the operand `%s` of hand-built %s to check its length" % (optxt, mn))
-            elif not (nb_e.get("k") == "lit" and nb_e["v"] == want):
-                res.fail(key, facts.where(fn, lit), "hand-built `%s %s` declares nb_bytes = %s, encoded length is %d" % (mn, optxt, expr_text(nb_e), want))
-    res.note("%d AsmInstruction literals outside asm()" % n)
+            check(fn, lit, fields)
+    # call sites of constructors
+    for cname, (cfn, fmap) in constructors.items():
+        qual = cfn["qual"].split("<")[0].strip()
+        for fn in facts.fns:
+            for c in walk(fn["body"]):
+                if c.get("k") == "call" and c["func"].get("k") == "path" and c["func"]["segs"][-1] == cname and (len(c["func"]["segs"]) == 1 or c["func"]["segs"][-2] in (qual, "Self")):
+                    n += 1
+                    fields = {}
+                    for fname2, (kind, v) in fmap.items():
+                        if kind == "param":
+                            if v < len(c["args"]):
+                                fields[fname2] = c["args"][v]
+                        else:
+                            fields[fname2] = v
+                    # a string literal operand passed as &str stands for `"..".into()`
+                    check(fn, c, fields)
+    res.note("%d AsmInstruction literals / constructor calls outside asm()" % n)
 
 
 def asmline_contributions(facts, fn):
